@@ -250,7 +250,7 @@ impl Ev {
             Ev::Ins => "ins".into(),
             Ev::Del => "del".into(),
             Ev::Upd(None) => "(upd)".into(),
-            Ev::Upd(Some(cs)) => format!("(upd {})", cs.iter().map(|c| c.to_string()).collect::<Vec<_>>().join(" ")),
+            Ev::Upd(Some(cs)) => format!("(updof{})", cs.iter().map(|c| format!(" {}", c)).collect::<String>()),
         }
     }
     fn kind(&self) -> u8 {
@@ -499,7 +499,10 @@ fn audit_sx(a: &[R]) -> String {
 
 /// model reply → same text with all-NULL images shown as `-`
 fn norm_model(reply: &str) -> String {
-    reply.replace("(N N N)", "-")
+    match reply.find("(log") {
+        Some(i) => format!("{}{}", &reply[..i], reply[i..].replace("(N N N)", "-")),
+        None => reply.to_string(),
+    }
 }
 
 struct Run {
@@ -654,7 +657,41 @@ fn replay_text(case: &Case, db: &Db, r: &Run, model: &str) -> String {
 
 /// run one case: real code, model, oracle.  Returns (fired, failed)
 fn check_case(case: &Case, id: &str, rep: &mut Report, model: &mut vharness::model::Model) {
-    let mut db = setup(case);
+    // S is filled in ascending row order (NULL last): the engine's SELECT * FROM S returns the
+    // rows in that order while the bulk transfer copies storage order — neither is the property
+    let mut case = case.clone();
+    // without INSERT triggers `INSERT … SELECT * FROM S` is the bulk transfer, whose row-by-row
+    // validation (a CHECK failing at row k keeps rows 1..k-1) is C11's subject, not this one's
+    let no_insert_trigger = !case.trigs.iter().any(|t| t.table == 0 && t.ev == Ev::Ins);
+    if let St::Ins(rows, how) = &mut case.st {
+        if *how == 2 && no_insert_trigger && rows.iter().any(|r| r[OK_COL] == Some(OK_VAL)) {
+            *how = 1;
+        }
+    }
+    if let St::Ins(rows, 1..=2) = &mut case.st {
+        rows.sort_by_key(|r| r.iter().map(|v| (v.is_none(), v.unwrap_or(0))).collect::<Vec<_>>());
+    }
+    let mut db = setup(&case);
+    // the order in which a filtered SELECT returns the rows of S is not part of the property:
+    // the rows to insert are taken in the order the engine's own SELECT yields them
+    if let St::Ins(rows, how @ 1..=2) = &mut case.st {
+        let q = if *how == 1 { "SELECT * FROM S WHERE C0 >= 0" } else { "SELECT * FROM S" };
+        let keep = db.keep_log;
+        db.keep_log = false;
+        if let Out::Rows(rs) = db.exec(q) {
+            let got: Vec<R> = rs
+                .iter()
+                .map(|r| r.iter().map(|v| match v { SqlValue::Integer(i) | SqlValue::Bigint(i) => Some(*i), _ => None }).collect())
+                .collect();
+            let (mut a, mut b) = (got.clone(), rows.clone());
+            a.sort();
+            b.sort();
+            assert_eq!(a, b, "harness precondition: SELECT * FROM S returns the rows of S");
+            *rows = got;
+        }
+        db.keep_log = keep;
+    }
+    let case = &case;
     let r = run_real(case, &mut db);
     let real = format!("(res {} (rows{}) (log{}))", r.out, r.post_t.iter().map(|x| format!(" {}", row_sx(x))).collect::<String>(), {
         let s = audit_sx(&r.post_a);
@@ -1033,8 +1070,9 @@ fn main() {
         check_case(&case, &format!("probe:{}", name), &mut rep, &mut model);
         rep.count("deterministic_probes");
     }
-    let mut rng = Rng::new(args.seed);
-    let n = args.n(4000, 120000);
+    // seeds k and k+1 of the shared SplitMix64 are the same stream shifted by one draw: spread them
+    let mut rng = Rng::new(args.seed.wrapping_mul(6364136223846793005).wrapping_add(1442695040888963407) >> 5);
+    let n = args.n(30000, 1500000);
     for i in 0..n {
         let case = gen_case(&mut rng);
         check_case(&case, &format!("gen:{}", i), &mut rep, &mut model);
